@@ -304,6 +304,10 @@ class FunctionVC:
                 return k3.NATIVE[recv.cls](I, recv, name, args, kwargs)
         tgt = self._method_target(recv, name)
         c = self.reg.contracts.get(tgt)
+        if c is None and isinstance(recv, VRec) and 'own' in recv.fields and \
+                name in ('__setitem__', '__delitem__'):
+            # dict subclass that does not override the method: plain dict behaviour on its own layer
+            return models.dict_method(I, recv.fields['own'], name, args, kwargs)
         if c is None:
             raise Unsupported('no contract for method %s' % tgt)
         return self.apply_contract(I, c, args, kwargs, callnode, selfv=recv)
